@@ -61,6 +61,7 @@ func (g *gtrans) varSpec(sp *ast.ValueSpec, e *genv) {
 		if k == kUntyped {
 			k = kInt
 		}
+		g.checkNoAliasCopy(e, sp.Values[0])
 		term := g.exprOfKind(e, sp.Values[0], k)
 		v := &gv{name: sp.Names[0].Name, kind: k}
 		g.declare(e, sp, v, true)
@@ -75,6 +76,7 @@ func (g *gtrans) varSpec(sp *ast.ValueSpec, e *genv) {
 		v := &gv{name: id.Name, kind: k, arrLen: n}
 		g.declare(e, sp, v, true)
 		g.line(e, "let "+v.name+" := "+g.zeroOf(k, n)+" in")
+		e.st[v].carry = k == kU64 // the zero value is a carry
 	}
 }
 
@@ -114,6 +116,9 @@ func (g *gtrans) assignMulti(s *ast.AssignStmt, def bool, e *genv) {
 	if !ok || len(call.Args) != b.nargs || len(s.Lhs) != 2 {
 		g.fail(s, "unsupported call bits.%s", sel.Sel.Name)
 	}
+	if (b.coq == "add64" || b.coq == "sub64") && !g.carryArgOK(e, call.Args[2]) {
+		g.fail(s, "the carry / borrow argument must be 0, 1 or a variable holding a carry (see carry.go)")
+	}
 	var as []string
 	for _, a := range call.Args {
 		as = append(as, g.exprOfKind(e, a, kU64))
@@ -148,6 +153,11 @@ func (g *gtrans) assignMulti(s *ast.AssignStmt, def bool, e *genv) {
 	for _, v := range dsts {
 		g.noteWrite(e, v)
 	}
+	if b.coq == "add64" || b.coq == "sub64" { // the second result is a carry / borrow
+		if id, ok := unparen(s.Lhs[1]).(*ast.Ident); ok && id.Name != "_" {
+			e.st[e.lookup(id.Name)].carry = true
+		}
+	}
 }
 
 // assignTo: lhs = rhs / lhs := rhs with one destination.
@@ -170,6 +180,7 @@ func (g *gtrans) assignTo(e *genv, s ast.Stmt, lhs, rhs ast.Expr, def bool) {
 				g.declare(e, s, &gv{name: x.Name, kind: kBig}, false)
 				return
 			}
+			g.checkNoAliasCopy(e, rhs)
 			term := g.exprOfKind(e, rhs, k)
 			v := &gv{name: x.Name, kind: k}
 			if k == kBytes {
@@ -186,6 +197,7 @@ func (g *gtrans) assignTo(e *genv, s ast.Stmt, lhs, rhs ast.Expr, def bool) {
 		if v.ptr {
 			g.fail(s, "assignment to the pointer %s itself (unsupported)", v.name)
 		}
+		g.checkNoAliasCopy(e, rhs)
 		term := g.exprOfKind(e, rhs, v.kind)
 		g.line(e, "let "+v.name+" := "+term+" in")
 		g.noteWrite(e, v)
@@ -218,6 +230,7 @@ func (g *gtrans) assignTo(e *genv, s ast.Stmt, lhs, rhs ast.Expr, def bool) {
 			g.noteRead(e, s, v)
 			term = app("limb_set", v.name, idx, val)
 		case kElems, kBools:
+			g.checkNotParamSlice(s, v)
 			ek := kElem
 			if v.kind == kBools {
 				ek = kBool
